@@ -1,6 +1,7 @@
 package main
 
 import (
+	"hash/crc32"
 	"context"
 	"fmt"
 	"os"
@@ -32,7 +33,8 @@ func vcFileName(dir string, vc *VC) string {
 	n := sanitize(vc.Name)
 	n = strings.NewReplacer("#", "-", "@", "-", ":", "-", "<", "lt", ">", "gt", "=", "eq", "&", "and", "|", "or", "!", "not", "+", "plus", "%", "pct", ",", "_", "'", "", "\"", "", "{", "_", "}", "_", "~", "-", "^", "x", ";", "_", "?", "_").Replace(n)
 	if len(n) > 150 {
-		n = n[:150]
+		// keep names distinct: a long clause label must not make the obligations of different returns share a file
+		n = fmt.Sprintf("%s_%08x", n[:140], crc32.ChecksumIEEE([]byte(vc.Name)))
 	}
 	return filepath.Join(dir, n+".smt2")
 }
